@@ -180,6 +180,23 @@ m('sort1-second-key-ignores-direction', 'SORT1', 'sort option', ('plan.go', '''	
 				return res
 			}'''))
 m('sort2-zero-is-descending', 'SORT2', 'direction 0', ('query/query.go', '''		if opt.Direction >= 0 {''', '''		if opt.Direction > 0 {'''))
+m('win1-limit-off-by-one', 'WIN1', 'Callback', ('plan.go', '''	if nd.limit < 0 || (nd.limit >= 0 && nd.consumed < nd.limit) {
+		nd.consumed++
+		return nd.CallNext(doc)
+	}
+	return internal.ErrStopIteration''', '''	if nd.limit < 0 || (nd.limit >= 0 && nd.consumed < nd.limit) {
+		nd.consumed++
+		return nd.CallNext(doc)
+	}
+	nd.consumed++
+	return nd.CallNext(doc)'''))
+m('win1-skipped-document-forwarded', 'WIN1', 'Callback', ('plan.go', '''	if nd.skipped < nd.skip {
+		nd.skipped++
+		return nil
+	}''', '''	if nd.skipped < nd.skip {
+		nd.skipped++
+		return nd.CallNext(doc)
+	}'''))
 # ---- IDX / ID
 m('idx1-save-without-index-add', 'IDX1', 'DB.UpdateById/save', ('db.go', '''	if err := db.addDocToIndexes(tx, indexes, updatedDoc); err != nil {
 		return err
